@@ -19,8 +19,25 @@ DECODERS = {
 }
 
 
+def chunks(h):
+    """byte string (hex text) as a list of hexadecimal numerals, 256 bytes each, with a leading 1 nibble"""
+    return cL(["0x1%s%%N" % h[i:i + 512] for i in range(0, len(h), 512)])
+
+
 def hxs(h):
-    return '(hx "%s")' % h
+    return "(ub %s)" % chunks(h)
+
+
+def pack_nums(nums):
+    out = []
+    for n in nums:
+        n = int(n)
+        out.append("%02x" % n if n < 255 else "ff%016x" % n)
+    return chunks("".join(out))
+
+
+def mask_hex(dec):
+    return "0x%x%%N" % int(dec)
 
 
 def sp_term(canon):
@@ -39,8 +56,8 @@ def sp_term(canon):
 
 def case_term(r):
     c, ext = r["case"], r.get("ext") or {}
-    pk = cN(ext.get("pk", "0"))
-    ed = cN(ext.get("ed", "0"))
+    pk = mask_hex(ext.get("pk", "0"))
+    ed = mask_hex(ext.get("ed", "0"))
     addrs = cL(["(%s, %s)" % (hxs(a), hxs(b)) for a, b in ext.get("addrs", [])])
     js = []
     for q, ans in ext.get("json", []):
@@ -49,7 +66,7 @@ def case_term(r):
         else:
             js.append("(%s, Some %s)" % (hxs(q), sp_term(ans)))
     x = "(mkX %s %s %s %s %s)" % (pk, ed, addrs, cL(js), cB(ext.get("edv", False)))
-    return "(%s, %s, %s, %s)" % (cN(c["d"]), cN(c["p"]), hxs(c["in"]), x)
+    return "((%s, %s, %s, %s), %s)" % (cN(c["d"]), cN(c["p"]), chunks(c["in"]), x, pack_nums(r["res"]))
 
 
 def load(path):
@@ -64,7 +81,8 @@ def run_harness(binp, wd, name, args, env=None):
     return load(out)
 
 
-def eval_model(rows, run_fn="run_case"):
+def eval_model(rows, run_fn="check_case"):
+    """-> {row index: [] if model == implementation else [7, model result...]}"""
     idx = [i for i, r in enumerate(rows) if r["case"]["d"] in MODELLED]
     # balance the shards: armored inputs cost more (base58 + SHA-256 inside Coq)
     terms = [case_term(rows[i]) for i in idx]
@@ -75,7 +93,7 @@ def eval_model(rows, run_fn="run_case"):
         buckets[j % nsh].append(k)
     flat = [k for b in buckets for k in b]
     shard = max(1, (len(flat) + nsh - 1) // nsh)
-    res = vlib.coq_eval(PROP, "From GW Require Import Base CodecBase CodecSlatepack CodecRun.\nFrom Coq Require Import String.\nOpen Scope string_scope.",
+    res = vlib.coq_eval(PROP, "From GW Require Import Base CodecBase CodecSlatepack CodecRun.",
                         run_fn, [terms[k] for k in flat], shard=shard)
     out = {}
     for k, m in zip(flat, res):
@@ -121,9 +139,9 @@ def run(tier, replay):
         slowest = max(slowest, r["us"])
         peak = max(peak, r["peak"])
         if i in model:
-            if [int(x) for x in r["res"]] != model[i]:
+            if model[i] != []:
                 divergences.append({"case": {k: c[k] for k in ("d", "p", "in")}, "decoder": DECODERS[c["d"]],
-                                    "impl": r["res"][:40], "model": model[i][:40], "impl_msg": r["msg"]})
+                                    "impl": r["res"][:40], "model": model[i][1:41], "impl_msg": r["msg"]})
             # non-trivial: a distinct input on which the decoder got past its first check
             # (a value) or that is a mutation/grammar/boundary case (exercises a guard)
             if r["cls"] == 0 or c.get("s") != "random":
